@@ -69,6 +69,41 @@ CHECKS = {
     note='Covers the untrusted block path (the stall F4, fixed). Untrusted headers verification, inv and tx (vouching) are covered by the '
          'TxPipeline/TxRequests checks where built; see DESIGN.md.',
     technique='TLA+ spec + TLC + schedule replay through the real untrusted handlers'),
+ 'C03': dict(
+    engine='TxPipeline',
+    category='model_checking',
+    text='TLA+ specification of transaction tracking (spec/TxPipeline.tla: mempool, outpoint index, unconfirmed repository, tx state records, consumer split at the mempool add, block processing, safe-delay checker, restart) checked exhaustively by TLC (AtMostOnceNew, NoIrrelevant, Complete, ConfirmedHasProof ...). TLC-simulated histories (all sources, duplicates, re-announcement after confirmation, restart, racing consumer) are replayed on the real handlers/SendTx/processUnconfirmedTx/ProcessBlock; TLC evaluates exactly-once, completeness, no-irrelevant and the spent-outputs fact on the recorded notifications and validates each step against the specification.',
+    design_ref='DESIGN.md 5.4, 6 (C03)',
+    note='Verdict only from real-code traces (projection of mempool, outpoint index, unconfirmed set, tx state records, notifications). Known finding F10 (block processed while the consumer is between mempool add and repository add) identified by a history predicate. Universes of 3-4 transactions; consumer/block/checker atomic except at the hook utx.afterMempool.',
+    technique='TLA+ spec + TLC exhaustive invariants + schedule replay on the real node with trace validation'),
+ 'C05': dict(
+    engine='TxPipeline',
+    category='model_checking',
+    text='Same specification and driver; the anchor invariant IndexExact (outpoint index = spenders with a body) is checked on the model and on the projected real mempool after every step, together with ConflictsFlagged, NoFalseFlag and StickyUnsafe over the recorded notifications, for 2-way/3-way conflicts and partial overlaps in every arrival order interleaved with confirmations and evictions.',
+    design_ref='DESIGN.md 5.4, 6 (C05)',
+    note='Verdict only from real-code traces (projection of mempool, outpoint index, unconfirmed set, tx state records, notifications). Known finding F10 (block processed while the consumer is between mempool add and repository add) identified by a history predicate. Universes of 3-4 transactions; consumer/block/checker atomic except at the hook utx.afterMempool.',
+    technique='TLA+ spec + TLC exhaustive invariants + schedule replay on the real node with trace validation'),
+ 'C06': dict(
+    engine='TxPipeline',
+    category='model_checking',
+    text='Same specification and driver; CancelOnConfirm is evaluated at every processed block of the real node: each delivered unconfirmed transaction that conflicts with a transaction of the block must get, in that step, an update marked cancelled+unsafe+not safe and leave the mempool, the block must advance the chain and deliver proofs for its own relevant transactions (independently verified).',
+    design_ref='DESIGN.md 5.4, 6 (C06)',
+    note='Verdict only from real-code traces (projection of mempool, outpoint index, unconfirmed set, tx state records, notifications). Known finding F10 (block processed while the consumer is between mempool add and repository add) identified by a history predicate. Universes of 3-4 transactions; consumer/block/checker atomic except at the hook utx.afterMempool.',
+    technique='TLA+ spec + TLC exhaustive invariants + schedule replay on the real node with trace validation'),
+ 'C07': dict(
+    engine='TxPipeline',
+    category='model_checking',
+    text='Same specification and driver with time: clock ticks shift the stored timestamps, one iteration of the real checkTxDelays is run per Checker step. SafeOnlyWarranted (a safe report only for local submission or for a transaction that was trusted, conflict-free and past the delay before the step), SafeEventually, SafeOnce, NeverBoth, CancImpliesUnsafe, StickyUnsafe are evaluated by TLC on the recorded notifications and projected state.',
+    design_ref='DESIGN.md 5.4, 6 (C07)',
+    note='Verdict only from real-code traces (projection of mempool, outpoint index, unconfirmed set, tx state records, notifications). Known finding F10 (block processed while the consumer is between mempool add and repository add) identified by a history predicate. Universes of 3-4 transactions; consumer/block/checker atomic except at the hook utx.afterMempool.',
+    technique='TLA+ spec + TLC exhaustive invariants + schedule replay on the real node with trace validation'),
+ 'C11': dict(
+    engine='TxPipeline',
+    category='model_checking',
+    text='Same specification and driver; a clean stop/start (save, new Node on the same storage) is an action of the model. RestartKeeps (unconfirmed flags and first-seen time, tx states, no notification), AtMostOnceNew and SafeOnce across the restart, confirmation after restart delivering an update with proof, and StoredCopy (GetTx returns the delivered transaction) are evaluated on the real traces.',
+    design_ref='DESIGN.md 5.10, 6 (C11)',
+    note='Verdict only from real-code traces (projection of mempool, outpoint index, unconfirmed set, tx state records, notifications). Known finding F10 (block processed while the consumer is between mempool add and repository add) identified by a history predicate. Universes of 3-4 transactions; consumer/block/checker atomic except at the hook utx.afterMempool.',
+    technique='TLA+ spec + TLC exhaustive invariants + schedule replay on the real node with trace validation'),
 }
 
 NOT_YET = {}
